@@ -10,8 +10,8 @@ PROPERTY = {
     'id': 'C10',
     'technique': 'CrossHair symbolic execution of EvalContext/evaluate_node memoisation and container evaluation over configs with recording dynamic nodes; the key order is a symbolic permutation index, the set of nodes overwritten/deleted by a later stage is symbolic; invocation log and object identity are asserted on every path',
     'assumptions': ['recording callables return fixed distinct objects (one of them returns None), so results are order-independent by construction of the targets'],
-    'bounds': {'dynamic nodes': '3 !call nodes at top level (one returning None), 1 nested !call, 1 !eval name consumer, consumers: 2 !xref, 2 call arguments by !xref, !xref into a nested path, !eval of a container',
-               'key orders': '28 orders of the 11 top-level keys (one key, "box.k", spells the path of a nested node) (all rotations, their reversals, definitions-last, consumers-first, ...)',
+    'bounds': {'dynamic nodes': '3 !call nodes at top level (one returning None), 1 nested !call, 1 !call whose target runs an independent nested Config.build (sub-config factory) while the outer evaluation is in progress, 1 !eval name consumer, consumers: 2 !xref, 2 call arguments by !xref, !xref into a nested path, !eval of a container',
+               'key orders': '30 orders of the 12 top-level keys (one key, "box.k", spells the path of a nested node) (all rotations, their reversals, definitions-last, consumers-first, ...)',
                'later stage': 'overwrites the None-returning call with a scalar / deletes the nested call / overwrites the !eval - each by a symbolic boolean'},
     'outside': ['all 10! key orders', 'dynamic nodes inside included files'],
     'per_split_timeout': {'quick': 600, 'thorough': 1800},
@@ -30,6 +30,7 @@ LINES = {
     'eb': 'eb: !eval "box"',
     'd': "d: [1, 2]",
     'box.k': "'box.k': !call:engine.targets.mk {x: [5]}",
+    'sub': "sub: !call:engine.targets.sub {}",
 }
 KEYS = list(LINES)
 
@@ -40,12 +41,12 @@ def _orders():
         rot = KEYS[r:] + KEYS[:r]
         out.append(rot)
         out.append(list(reversed(rot)))
-    out.append(['x', 'y', 'e', 'xi', 'eb', 'q', 'box.k', 'box', 'd', 'n', 'p'])      # consumers first, definitions last
-    out.append(['xi', 'eb', 'box', 'e', 'x', 'p', 'y', 'n', 'q', 'd', 'box.k'])
-    out.append(['eb', 'xi', 'e', 'y', 'x', 'q', 'n', 'p', 'box', 'box.k', 'd'])
-    out.append(['box.k', 'q', 'xi', 'eb', 'y', 'n', 'x', 'e', 'p', 'd', 'box'])
-    out.append(['d', 'box', 'eb', 'xi', 'q', 'p', 'n', 'e', 'y', 'x', 'box.k'])
-    out.append(['y', 'n', 'x', 'p', 'xi', 'box.k', 'box', 'eb', 'q', 'e', 'd'])
+    out.append(['x', 'y', 'e', 'xi', 'eb', 'q', 'box.k', 'box', 'sub', 'd', 'n', 'p'])      # consumers first, definitions last
+    out.append(['xi', 'eb', 'box', 'e', 'x', 'p', 'sub', 'y', 'n', 'q', 'd', 'box.k'])
+    out.append(['eb', 'xi', 'e', 'y', 'sub', 'x', 'q', 'n', 'p', 'box', 'box.k', 'd'])
+    out.append(['box.k', 'q', 'sub', 'xi', 'eb', 'y', 'n', 'x', 'e', 'p', 'd', 'box'])
+    out.append(['d', 'box', 'eb', 'xi', 'q', 'p', 'n', 'e', 'y', 'x', 'box.k', 'sub'])
+    out.append(['sub', 'y', 'n', 'x', 'p', 'xi', 'box.k', 'box', 'eb', 'q', 'e', 'd'])
     return out
 
 
@@ -87,8 +88,8 @@ def c10_once(split, order, ov_n, del_box, ov_e, rep_box):
         return False
     log = [e[0] for e in targets.LOG]
     note(log=repr(targets.LOG), got=repr(cfg))
-    counts = {k: log.count(k) for k in ('f', 'g', 'h', 'ident', 'mk')}
-    want = {'f': 1, 'g': 0 if ov_n else 1, 'h': 1, 'ident': 0 if (del_box or rep_box) else 1, 'mk': 1}
+    counts = {k: log.count(k) for k in ('f', 'g', 'h', 'ident', 'mk', 'sub', 'leaf')}
+    want = {'f': 1, 'g': 0 if ov_n else 1, 'h': 1, 'ident': 0 if (del_box or rep_box) else 1, 'mk': 1, 'sub': 1, 'leaf': 1}
     if counts != want:
         note(counts=counts, want=want)
         return False
@@ -109,7 +110,7 @@ def c10_once(split, order, ov_n, del_box, ov_e, rep_box):
         wit('box_checked')
     else:
         ok = ok and 'box' not in cfg
-    ok = ok and cfg['d'] == [1, 2] and cfg['box.k'] == [5]
+    ok = ok and cfg['d'] == [1, 2] and cfg['box.k'] == [5] and cfg['sub'] == {'r': [1], 'same': True}
     # independent of the order: the set of keys and every value
     exp_keys = set(KEYS) - ({'box'} if del_box else set())
     ok = ok and set(cfg.keys()) == exp_keys
